@@ -62,7 +62,7 @@ CONFIG = {
 }
 
 TOTALS = {
-    "quick": {"prefix_docs": 56, "max_len": 400, "valid": 800, "edit": 3200, "soup": 1600},
+    "quick": {"prefix_docs": 96, "max_len": 400, "valid": 1200, "edit": 6400, "soup": 4800},
     "thorough": {"prefix_docs": 320, "max_len": 800, "valid": 12000, "edit": 60000, "soup": 30000,
                  "atheris_runs": 160000},
 }
